@@ -7,7 +7,7 @@ EXTENDS Derive, Json
 CONSTANTS MaxFeatures, Mode
 Shapes == {"struct_named", "struct_unnamed", "struct_unit", "enum"}
 Features == {"generic", "skipped_param", "lifetime", "docs", "rename", "skip_field", "compact", "phantom", "selfref", "nested",
-             "raw_ident", "const_generic", "doc_attr_form", "combined_attrs", "capture_always", "capture_never", "capture_default", "modules", "replace", "skip_variant", "codec_index", "discriminant", "encoded_as"}
+             "raw_ident", "const_generic", "macro_ty", "doc_attr_form", "combined_attrs", "capture_always", "capture_never", "capture_default", "modules", "replace", "skip_variant", "codec_index", "discriminant", "encoded_as"}
 Excl(S) == Cardinality(S \cap {"capture_always", "capture_never", "capture_default"}) <= 1
 Plans == {<<sh, S>> : sh \in Shapes, S \in {T \in SUBSET Features : Cardinality(T) <= MaxFeatures /\ Excl(T)}}
 \* container attribute items (C20 derive half)
@@ -19,7 +19,7 @@ Items == { [k |-> "bounds", ps |-> {"T", "U"}], [k |-> "bounds", ps |-> {"T"}], 
            [k |-> "replace_segment"], [k |-> "unknown"] }
 \* bounds(..) whose predicates mention T without bounding it: T stays unbound
 IndirectItems == { [k |-> "bounds", ps |-> {}, other |-> <<"assoc">>], [k |-> "bounds", ps |-> {"U"}, other |-> <<"assoc">>],
-                   [k |-> "bounds", ps |-> {"U"}, other |-> <<"qassoc", "vec">>], [k |-> "bounds", ps |-> {"T", "U"}, other |-> <<"assoc">>] }
+                   [k |-> "bounds", ps |-> {"U"}, other |-> <<"qassoc", "vec">>], [k |-> "bounds", ps |-> {"U"}, other |-> <<"arr", "lifetime">>], [k |-> "bounds", ps |-> {"T", "U"}, other |-> <<"assoc">>] }
 ItemSeqs == UNION {[1..n -> Items] : n \in 0..3} \cup UNION {[1..n -> Items \cup IndirectItems] : n \in 1..2}
 VARIABLE x
 Init == IF Mode = "plans" THEN x \in Plans ELSE x \in ItemSeqs
